@@ -56,9 +56,9 @@ Section JointTotal.
   Notation merge_fwd := (merge_information_forward_gen T t_eqb univ null union inter single f).
   Notation loop_fwd := (forward_analyis_loop_gen T t_eqb univ null union inter single f).
   Notation analysis_fwd := (forward_analyis_gen T t_eqb univ null union inter single f).
-  Notation merge_bwd := (merge_information_backward_gen T t_eqb null union inter f).
-  Notation loop_bwd := (backward_analysis_loop_gen T t_eqb null union inter f).
-  Notation analysis_bwd := (backward_analysis_gen T t_eqb null union inter f).
+  Notation merge_bwd := (merge_information_backward_gen T t_eqb univ null union inter f).
+  Notation loop_bwd := (backward_analysis_loop_gen T t_eqb univ null union inter f).
+  Notation analysis_bwd := (backward_analysis_gen T t_eqb univ null union inter f).
   Notation pass := (joint_pass_gen T t_eqb univ null union inter single f).
   Notation jfold := (JointGenLemmas.jfold T).
   Notation fwd_st0 k := (SolverLemmas.fwd_st0 T (null k) f).
@@ -158,7 +158,7 @@ Section JointTotal.
     unfold ret at 1. rewrite key_fold_jfold.
     rewrite (jfold_ext _ (fun k st => bstep k (view bcs k) st b)).
     - destruct (jfold _ keys gl false) as [[g u]|]; reflexivity.
-    - intros k st. apply (gstep_call_bstep T t_eqb null union inter f k b xb _ st Hm Hb Hl).
+    - intros k st. apply (gstep_call_bstep T t_eqb univ null union inter f k b xb _ st Hm Hb Hl).
   Qed.
 
   (* ---------------------------------------------------------------- the invariants of TotalSolver, per key *)
